@@ -249,28 +249,26 @@ class NslParser:
         p[0] = ast.CallExpression(types.UnresolvedType(p[1]), p[3])
 
     def p_binary_expression(self, p):
-        """binary_expression : expression bin_op expression
-        | '(' expression bin_op expression ')'"""
-        if len(p) == 4:
-            p[0] = ast.BinaryExpression(op.StrToOp(p[2]), p[1], p[3])
+        """binary_expression : expression LT expression
+        | expression GT expression
+        | expression PLUS expression
+        | expression MINUS expression
+        | expression TIMES expression
+        | expression DIVIDE expression
+        | expression MOD expression
+        | expression GE expression
+        | expression LE expression
+        | expression EQ expression
+        | expression NE expression
+        | expression LAND expression
+        | expression LOR expression
+        | '(' binary_expression ')'"""
+        # The operator tokens must appear directly in the rule, otherwise the
+        # precedence table above is not applied to it
+        if p[1] == "(":
+            p[0] = p[2]
         else:
-            p[0] = ast.BinaryExpression(op.StrToOp(p[3]), p[2], p[4])
-
-    def p_bin_op(self, p):
-        """bin_op : LT
-        | GT
-        | PLUS
-        | MINUS
-        | TIMES
-        | DIVIDE
-        | MOD
-        | GE
-        | LE
-        | EQ
-        | NE
-        | LAND
-        | LOR"""
-        p[0] = p[1]
+            p[0] = ast.BinaryExpression(op.StrToOp(p[2]), p[1], p[3])
 
     def p_access_expression(self, p):
         """access_expression : array_expression
